@@ -269,6 +269,47 @@ def call(pe, name, args, kwargs, node):
           d[k] = v
     d.update(kwargs)
     return d
+  if name in ("copy.deepcopy", "copy.copy"):
+    def dc(v, memo):
+      if isinstance(v, Obj):
+        if id(v) in memo:
+          return memo[id(v)]
+        o = Obj(v.cls)
+        memo[id(v)] = o
+        for k, a in v.attrs.items():
+          o.attrs[k] = dc(a, memo) if name == "copy.deepcopy" else a
+        return o
+      if name == "copy.copy":
+        if isinstance(v, list):
+          return list(v)
+        if isinstance(v, dict):
+          return dict(v)
+        return v
+      if isinstance(v, list):
+        return [dc(e, memo) for e in v]
+      if isinstance(v, tuple):
+        return tuple(dc(e, memo) for e in v)
+      if isinstance(v, dict):
+        return {k: dc(e, memo) for k, e in v.items()}
+      return v
+    return dc(args[0], {})
+  if name == "issubclass":
+    a, b = args
+    if isinstance(a, ClassRef) and isinstance(b, ClassRef):
+      return b.cls in a.cls.mro()
+    if isinstance(a, ClassRef) and isinstance(b, (list, tuple)):
+      return any(isinstance(t, ClassRef) and t.cls in a.cls.mro() for t in b)
+    return False
+  if name in ("np.log10", "math.log10"):
+    v = args[0]
+    if isinstance(v, Tensor):
+      return T(pe, ("app", "log10", (), (v.term,)), v.shape)
+    return mkfloat(Fraction(math.log10(float(fr(v)))))
+  if name in ("math.ceil", "math.floor"):
+    return unary(pe, name.split(".")[1], args[0])
+  if name in ("math.log2", "math.log"):
+    return call(pe, "np.log2" if name.endswith("2") else "np.log", args,
+                kwargs, node)
   if name == "globals":
     from . import gram
     return gram.GlobalsDict(pe, pe.cur_module)
